@@ -137,6 +137,8 @@ pub struct Dur {
 pub struct Promises {
     pub max_term_released: u64,
     pub granted: HashMap<u64, u64>,
+    /// terms in which this node released leader traffic as a self-elected sole voter before persisting (finding F1)
+    pub f1_terms: HashSet<u64>,
 }
 
 pub struct Mon {
@@ -181,7 +183,7 @@ impl Mon {
     }
 
     pub fn violation(&mut self, prop: &str, monitor: &str, detail: String, op: usize) {
-        if self.violations.len() < 8 {
+        if self.violations.len() < 8 && !self.violations.iter().any(|v| v.property == prop && v.monitor == monitor) {
             self.violations.push(Violation {
                 property: prop.to_string(),
                 monitor: monitor.to_string(),
@@ -276,7 +278,7 @@ impl Mon {
         // restored commit index: everything at or below it is (again) reported committed
         self.check_commit_range(ni, 0, post.committed, &post.log, "restart", op);
         if self.on(P04) && !first {
-            for i in (post.log.base + 1)..=post.committed {
+            for i in (post.log.base.max(self.g.s0) + 1)..=post.committed {
                 self.g.ensure(i);
                 if self.g.commit_term[i as usize] == 0 {
                     self.violation(
@@ -296,7 +298,8 @@ impl Mon {
                     "node {} restarted at term {} but it had released a message of term {}",
                     ni + 1, post.term, p.max_term_released
                 );
-                self.violation("C06", "restart-term-behind-promise", d, op);
+                let mon = if p.f1_terms.contains(&p.max_term_released) { "restart-term-behind-promise:sole-voter-leader" } else { "restart-term-behind-promise" };
+                self.violation("C06", mon, d, op);
             } else if let Some(c) = p.granted.get(&post.term) {
                 if post.vote != *c {
                     let d = format!(
@@ -557,7 +560,7 @@ impl Mon {
                     self.check_leader_commit(ni, c1, post, nodes, op);
                 }
             } else if self.on(P04) {
-                for i in pre.committed + 1..=c1 {
+                for i in (pre.committed.max(self.g.s0) + 1)..=c1 {
                     if self.g.commit_term[i as usize] == 0 {
                         self.violation(
                             "C04",
@@ -931,21 +934,30 @@ impl Mon {
                 format!("durable term {} < message term {}", dur.term, m.term),
             ));
         }
+        // A durable term above the message's term also keeps the promise: the node
+        // can never again vote or lead in the lower term.
+        let vote_ok = |expect: u64| -> bool { dur.term > m.term || dur.votes.get(&m.term) == Some(&expect) };
         if bad.is_none() {
             match t {
                 MessageType::MsgRequestVote => {
-                    if dur.votes.get(&m.term) != Some(&id) {
-                        bad = Some(("vote-request-before-vote-durable", format!("durable vote in term {} is {:?}", m.term, dur.votes.get(&m.term))));
+                    if !vote_ok(id) {
+                        bad = Some(("vote-request-before-vote-durable", format!("durable term {} vote in term {} is {:?}", dur.term, m.term, dur.votes.get(&m.term))));
                     }
                 }
                 MessageType::MsgRequestVoteResponse if !m.reject => {
-                    if dur.votes.get(&m.term) != Some(&m.to) {
-                        bad = Some(("vote-grant-before-vote-durable", format!("durable vote in term {} is {:?}, grant goes to {}", m.term, dur.votes.get(&m.term), m.to)));
+                    if !vote_ok(m.to) {
+                        bad = Some(("vote-grant-before-vote-durable", format!("durable term {} vote in term {} is {:?}, grant goes to {}", dur.term, m.term, dur.votes.get(&m.term), m.to)));
                     }
                 }
                 MessageType::MsgAppendResponse if !m.reject => {
                     if let Some(gt) = meta.gen_term_at_index {
-                        if m.index > dur.snap && !dur.ents.contains(&(m.index, gt)) {
+                        // an entry replaced before it was ever written (a newer leader's entry now
+                        // durably sits at that index) voids the acknowledgement harmlessly
+                        // (log terms are monotone, so a newer leader's rewrite at or before m.index shows
+                        // at min(m.index, last durable index))
+                        let k = m.index.min(nodes[ni].disk.last_index());
+                        let superseded = nodes[ni].disk.term_of(k).map_or(false, |t2| t2 > gt);
+                        if m.index > dur.snap && !dur.ents.contains(&(m.index, gt)) && !superseded {
                             bad = Some((
                                 "append-ack-before-entries-durable",
                                 format!("acknowledges index {} (term {}) which has never been durable (durable snapshot {})", m.index, gt, dur.snap),
@@ -958,10 +970,10 @@ impl Mon {
                 | MessageType::MsgSnapshot
                 | MessageType::MsgTimeoutNow
                 | MessageType::MsgReadIndexResp => {
-                    if dur.votes.get(&m.term) != Some(&id) {
+                    if !vote_ok(id) {
                         bad = Some((
                             "leader-traffic-before-own-vote-durable",
-                            format!("durable vote in term {} is {:?}", m.term, dur.votes.get(&m.term)),
+                            format!("durable term {} vote in term {} is {:?}", dur.term, m.term, dur.votes.get(&m.term)),
                         ));
                     }
                 }
@@ -969,6 +981,13 @@ impl Mon {
             }
         }
         if let Some((mon, why)) = bad {
+            // precise tag for the listed finding F1: sender is leader and sole voter of its own configuration
+            let sole = nodes[ni].rn.as_ref().map_or(false, |rn| rn.raft.state == StateRole::Leader && sole_voter(rn));
+            if sole {
+                self.prom[ni].f1_terms.insert(m.term);
+            }
+            let mon_s = if sole { format!("{}:sole-voter-leader", mon) } else { mon.to_string() };
+            let mon = mon_s.as_str();
             self.violation(
                 "C06",
                 mon,
